@@ -335,6 +335,9 @@ func checkC14(job *Job, res *Result) {
 	if job.Shard == 0 && job.Replay == nil {
 		c14RoleChange(job, res)
 	}
+	if job.Shard == 1%job.NShards && job.Replay == nil {
+		c14NoLog(job, res, phases)
+	}
 }
 
 // timerDump lists every pending timer the server holds: the expiry index of each
@@ -365,6 +368,64 @@ func timerDump(s *Server) string {
 // replica (started from a config file that names its leader) that is promoted
 // with FOLLOW no one expires what it is given from then on; what it was given
 // before, by its leader, expires too.
+// c14NoLog: a server that keeps no log (appendonly no) expires and announces like any
+// other: 4 ways of giving an object a deadline x 3 sweeper phases, observed by a live
+// fence and by a channel subscriber.
+func c14NoLog(job *Job, res *Result, phases []int) {
+	histories := [][][]string{
+		{{"SET", "k1", "a", "EX", "1", "POINT", "7", "7"}},
+		{{"SET", "k1", "a", "POINT", "7", "7"}, {"EXPIRE", "k1", "a", "1"}},
+		{{"SET", "k1", "a", "EX", "50", "POINT", "7", "7"}, {"SET", "k1", "a", "EX", "1", "POINT", "7", "7"}},
+		{{"SET", "k1", "b", "POINT", "7", "7"}, {"SET", "k1", "a", "EX", "1", "POINT", "7", "7"}, {"SET", "k1", "c", "EX", "1.1", "POINT", "7", "7"}},
+	}
+	for hi, h := range histories {
+		for _, phase := range phases {
+			hi, h, phase := hi, h, phase
+			viol := func(sig, detail string) {
+				res.Violate("C14/no-log-server:"+sig, fmt.Sprintf("%s  [server without a log, sweeper phase +%d ms, history %v]", detail, phase, h), map[string]any{"nolog": hi, "phase": phase})
+			}
+			x := runExec(job, freezeAllBut("backgroundExpiring", "backgroundSyncAOF"), func(x *Exec) {
+				in := x.Start("N", x.dir+"/N", 9001, func(o *Options) { o.AppendOnly = false })
+				c := x.Dial(in.Addr)
+				c.Do(append([]string{"SETCHAN", "watch"}, "NEARBY", "k1", "FENCE", "POINT", "7", "7", "100000")...)
+				live, sub := x.Dial(in.Addr), x.Dial(in.Addr)
+				live.Send(respCmd("NEARBY", "k1", "FENCE", "POINT", "7", "7", "100000"))
+				sub.Send(respCmd("SUBSCRIBE", "watch"))
+				vsched.Quiesce()
+				vsched.Sleep(int64(phase) * int64(stdtime.Millisecond))
+				for _, cmd := range h {
+					c.Do(cmd...)
+				}
+				vsched.Quiesce()
+				drainMessages(live)
+				drainMessages(sub)
+				vsched.Sleep(int64(1600 * stdtime.Millisecond))
+				vsched.Quiesce()
+				res.Evaluations++
+				res.DistinctS(fmt.Sprint("nolog", hi, phase))
+				if g := c.Do("GET", "k1", "a"); !g.Null {
+					viol("not-expired", "k1/a is still served 0.6 s after its deadline: "+vclip(g.String(), 80))
+				}
+				for name, conn := range map[string]*Cli{"live fence": live, "channel": sub} {
+					found := false
+					msgs := drainMessages(conn)
+					for _, m := range msgs {
+						if strings.Contains(m, `"command":"del"`) && strings.Contains(m, `"id":"a"`) {
+							found = true
+						}
+					}
+					if !found {
+						viol("expiry-no-fence-del", fmt.Sprintf("k1/a expired inside the fence but the %s received no 'del' notification (%d messages)", name, len(msgs)))
+					}
+				}
+			})
+			if x.Err != "" || len(x.Crashes) > 0 {
+				viol("hang-or-crash", fmt.Sprint(x.Err, x.Crashes))
+			}
+		}
+	}
+}
+
 func c14RoleChange(job *Job, res *Result) {
 	viol := func(sig, detail string) {
 		res.Violate("C14/role-change:"+sig, detail, map[string]any{"role_change": true})
